@@ -5,6 +5,7 @@ CONSTANTS
   MaxReq = 1
   MaxConn = 2
   MaxFail = 0
+  EagerRelease = FALSE
 CONSTRAINT Bound
 INVARIANT NoLostRequest
 CHECK_DEADLOCK FALSE
